@@ -189,6 +189,126 @@ def check_scalar_rule(rule, report, null_is_zero, replay=True):
 
 SQLT = {'I': 'INT', 'B': 'BOOLEAN', 'S': 'VARCHAR'}
 
+# constants for side conditions decided by the real rule: (text as the planner's constant, type, value or None for NULL)
+CONST_DOMAIN = {
+    'I': [('0', 0), ('1', 1), ('2', 2), ('-1', -1), ('3000000000', 3000000000), ('-3000000000', -3000000000), ('null', None)],
+    'B': [('true', True), ('false', False), ('null', None)],
+    'S': [("'a'", 'a'), ("'b'", 'b'), ('null', None)],
+}
+
+
+def check_scalar_rule_real_conditions(rule, report, replay=True):
+    """Side conditions over constants (is_greater_than, is_not_zero, ...) are code: whether the rule fires on given constants
+    is asked of the *real* rule (Optimizer::verif_apply_rule) for every combination of constants from a small typed domain
+    (same and different widths, equal / smaller / larger, NULL); for each combination on which it fires the solver decides
+    `lhs == rhs` for every value of the remaining (column) variables."""
+    L, R = parse(rule.lhs), parse(rule.rhs)
+    const_vars = sorted(set(a for c, args in rule.conds for a in args))
+    if not const_vars:
+        return
+    ti = TypeInf()
+    try:
+        tl, tr = ti.walk(L), ti.walk(R)
+        ti.union(tl, tr)
+    except (TypeError, NotEncodable):
+        return
+    vars_ = sorted(set(a for a in atoms(L) if a.startswith('?')) | set(a for a in atoms(R) if a.startswith('?')))
+    classes = sorted(set(ti.find(v) for v in vars_ if ti.find(v) not in ti.conc))
+    items, metas = [], []
+    for combo in itertools.product('IBS', repeat=len(classes)):
+        asg = dict(zip(classes, combo))
+        types = {v: ti.conc.get(ti.find(v)) or asg[ti.find(v)] for v in vars_}
+        cols = [v for v in vars_ if v not in const_vars]
+        for consts in itertools.product(*[CONST_DOMAIN[types[v]] for v in const_vars]):
+            m = {v: c[0] for v, c in zip(const_vars, consts)}
+            for i, v in enumerate(cols):
+                m[v] = '$0.%d' % i
+            inst = subst(L, m)
+            items.append({'name': rule.name, 'lhs': rule.lhs, 'expr': show(inst)})
+            metas.append((types, dict(zip(const_vars, consts)), cols, inst))
+    if not items:
+        return
+    # one table wide enough for every column typing: columns are only referenced, never read
+    setup = ['create table r(c0 int, c1 int, c2 int)']
+    out, rc, err = rl('applyrule', {'setup': setup, 'config': {'name': 'mem'}, 'items': items}, timeout=300)
+    got = [o for o in out if 'name' in o]
+    if len(got) != len(items):
+        report.fail_inconclusive('applyrule returned %d results for %d constant instances of %s: %s' % (len(got), len(items), rule.name, err[-200:]))
+        return
+    fired = 0
+    seen = set()
+    for (types, consts, cols, inst), g in zip(metas, got):
+        if g.get('norule'):
+            report.fail_inconclusive('compiled rule %s not found by the hook' % rule.name)
+            return
+        for rhs_txt in g.get('out', []) or []:
+            fired += 1
+            rhs = parse(rhs_txt)
+            enc = Enc({}, K=1)
+            vals = {}
+            for i, v in enumerate(cols):
+                t = types[v]
+                n = Bool('v_%s_n' % v[1:])
+                x = Bool('v_%s' % v[1:]) if t == 'B' else Int('v_%s' % v[1:])
+                vals['$0.%d' % i] = V(t, x, n)
+                if t != 'B':
+                    enc.cons += [x >= -enc.bound, x <= enc.bound]
+            rel = sem.Rel(list(vals), None)
+            row = [vals[k] for k in vals]
+            try:
+                lv, rv = enc.expr(inst, rel, row), enc.expr(rhs, rel, row)
+            except (NotEncodable, Unresolved) as ex:
+                report.skip('%s on %s' % (rule.name, show(inst)), 'not encodable: %s' % ex)
+                continue
+            s = Solver()
+            s.set('timeout', 30000)
+            s.add(enc.cons + enc.strlit_constraints())
+            s.add(Not(sem.dveq(lv, rv)))
+            t0 = time.time()
+            r = s.check()
+            report.solver(time.time() - t0, 1)
+            report.cov['programs'] += 1
+            if r == unsat:
+                report.obligation(True)
+                continue
+            if r != sat:
+                report.obligation(False)
+                report.fail_inconclusive('solver unknown on %s' % show(inst))
+                continue
+            mdl = s.model()
+            w = {k: mval(mdl, x) for k, x in vals.items()}
+            # replay: both sides on a one-row table holding the witness columns
+            colsql = ', '.join('c%d %s' % (i, SQLT[types[v]]) for i, v in enumerate(cols)) or 'c0 int'
+            ins = ', '.join('NULL' if w['$0.%d' % i] is None else (lit(w['$0.%d' % i]) if types[v] != 'S' else "'s%03d'" % (w['$0.%d' % i] + 500)) for i, v in enumerate(cols)) or '0'
+            src = ['scan', '$0', ['list'] + (['$0.%d' % i for i in range(len(cols))] or ['$0.0']), 'true']
+            plans = [show(['proj', ['list', inst], src]), show(['proj', ['list', rhs], src])]
+            rep = {'reproduced': None}
+            if replay:
+                o2, rc2, err2 = rl('planrun', {'setup': ['create table r(%s)' % colsql, 'insert into r values (%s)' % ins], 'plans': plans})
+                res = [o for o in o2 if 'plan' in o]
+                if len(res) == 2 and all(o.get('ok') and not o.get('panicked') and len(o.get('rows', [])) == 1 for o in res):
+                    a, b = res[0]['rows'][0][0], res[1]['rows'][0][0]
+                    rep = {'reproduced': a != b, 'how': {'plans': plans, 'row': w, 'engine_lhs': a, 'engine_rhs': b}}
+                else:
+                    rep = {'reproduced': None, 'how': {'plans': plans, 'note': 'a side is not executable: ' + err2[-200:]}}
+            # constants of one variant (both narrow, both wide, both NULL) fall under the typed instantiation's key; constants of
+            # different variants (narrow vs wide integer, NULL vs value) are a different site
+            variant = lambda v, c: 'null' if c[1] is None else ('wide' if isinstance(c[1], int) and not isinstance(c[1], bool) and abs(c[1]) > 2 ** 31 else types[v])
+            shapes = sorted(set(variant(v, c) for v, c in consts.items()))
+            key = rule.key() + '#' + ','.join('%s:%s' % (v, t) for v, t in sorted(types.items()))
+            if len(shapes) > 1:
+                key += '|consts=' + ','.join('%s:%s' % (v, variant(v, c)) for v, c in sorted(consts.items()))
+            if key in seen:
+                continue
+            seen.add(key)
+            report.cov['disagreements_checked'] += 1
+            what = 'rewrite %s fires on the constants %s and changes the value: %s => %s differ for %s' % (
+                rule.name, {v: c[0] for v, c in consts.items()}, show(inst), show(rhs), w)
+            outc = report.counterexample(key, what[:600], {'rule': rule.text(), 'instance': show(inst), 'rhs': show(rhs), 'witness': w, 'replay': rep}, rep['reproduced'])
+            report.obligation(outc == 'known')
+    report.cov['scalar_rule_constant_instances'] = report.cov.get('scalar_rule_constant_instances', 0) + len(items)
+    report.cov['scalar_rule_constant_instances_fired'] = report.cov.get('scalar_rule_constant_instances_fired', 0) + fired
+
 
 def replay_scalar(rule, L, R, types, w, want):
     """Evaluate both sides on the real engine: variables become columns of a one-row table (constants where the side
@@ -593,6 +713,8 @@ def run(report, rules, K, thorough, select=None, replay=True):
             continue
         if is_scalar_rule(rule.lhs) and rule.rhs is not None:
             check_scalar_rule(rule, report, nz, replay)
+            if rule.conds:
+                check_scalar_rule_real_conditions(rule, report, replay)
         else:
             tasks += plan_rule_tasks(rule, report, K, thorough)
     if tasks:
